@@ -22,7 +22,7 @@ CONFIG = {
     "C15": dict(gen=["Char", "Units"], drivers=[]),
     "C16": dict(gen=["Char"], drivers=["Char"]),
     "C18": dict(gen=["Char"], drivers=["Kernel", "Char"]),
-    "C19": dict(gen=["Char", "Models"], drivers=["Char"]),
+    "C19": dict(gen=["Char", "Models"], drivers=["Char", "Enthalpy"]),
     "C17": dict(gen=["Char"], drivers=["Char"]),
     "C02": dict(gen=["Units"], drivers=["IsoState"]),
     "C03": dict(gen=["Units"], drivers=["Access"]),
